@@ -398,6 +398,215 @@ func init() {
 			calleesJS = append(calleesJS, []string{c.file, c.fn, c.verdict})
 		}
 		b.WriteString("]\n")
-		return b.String(), map[string]interface{}{"c03_nonfresh": nonfresh, "c03_summary": summary, "c03_callees": calleesJS}
+		// ---- reference fields shared by struct copy ("copy constructors")
+		b.WriteString("\n")
+		refLean, refJS := c03CopyCtors(pkgs)
+		b.WriteString(refLean)
+		return b.String(), map[string]interface{}{"c03_nonfresh": nonfresh, "c03_summary": summary, "c03_callees": calleesJS,
+			"c03_copyCtors": refJS}
 	})
+}
+
+// c03RefKind: is this field type a reference that a struct copy SHARES (pointer, map, slice, func, chan, sync.*)?
+func c03RefKind(t ast.Expr) string {
+	switch x := t.(type) {
+	case *ast.StarExpr:
+		return "ptr"
+	case *ast.MapType:
+		return "map"
+	case *ast.ArrayType:
+		if x.Len == nil {
+			return "slice"
+		}
+	case *ast.FuncType:
+		return "func"
+	case *ast.ChanType:
+		return "chan"
+	case *ast.SelectorExpr:
+		if id, ok := x.X.(*ast.Ident); ok && id.Name == "sync" {
+			return "sync." + x.Sel.Name
+		}
+	}
+	return ""
+}
+
+// c03CopyCtors: for every struct type of rel/ that some function derives a new value of by COPYING an existing one
+// (`x := r; x.f = …; return x`, or `r.f = …; return r` on a value receiver / value parameter), the reference fields of the
+// struct and, per such function, which fields it assigns and which reference fields it leaves shared with the original.
+func c03CopyCtors(pkgs map[string][]*ast.File) (string, map[string]interface{}) {
+	type field struct{ name, kind string }
+	structs := map[string][]field{}
+	// named types of rel/ whose underlying type is itself a reference (type NamesSlice []string, …)
+	named := map[string]string{}
+	for _, f := range pkgs["rel"] {
+		for _, decl := range f.Decls {
+			if gd, ok := decl.(*ast.GenDecl); ok && gd.Tok == token.TYPE {
+				for _, sp := range gd.Specs {
+					ts := sp.(*ast.TypeSpec)
+					if k := c03RefKind(ts.Type); k != "" {
+						named[ts.Name.Name] = k
+					}
+				}
+			}
+		}
+	}
+	for _, f := range pkgs["rel"] {
+		for _, decl := range f.Decls {
+			gd, ok := decl.(*ast.GenDecl)
+			if !ok || gd.Tok != token.TYPE {
+				continue
+			}
+			for _, sp := range gd.Specs {
+				ts := sp.(*ast.TypeSpec)
+				st, ok := ts.Type.(*ast.StructType)
+				if !ok {
+					continue
+				}
+				var fs []field
+				for _, fl := range st.Fields.List {
+					k := c03RefKind(fl.Type)
+					if id, ok := fl.Type.(*ast.Ident); ok && k == "" {
+						k = named[id.Name]
+					}
+					if k == "" {
+						continue
+					}
+					if len(fl.Names) == 0 {
+						fs = append(fs, field{strings.Join(strings.Fields(src(fl.Type)), ""), k})
+					}
+					for _, n := range fl.Names {
+						fs = append(fs, field{n.Name, k})
+					}
+				}
+				structs[ts.Name.Name] = fs
+			}
+		}
+	}
+	typeName := func(t ast.Expr) (string, bool) { // (name, isValue)
+		if id, ok := t.(*ast.Ident); ok {
+			return id.Name, true
+		}
+		return "", false
+	}
+	type ctor struct{ typ, fn, assigned, shared string }
+	var ctors []ctor
+	for _, f := range pkgs["rel"] {
+		file := filepath.Base(fset.Position(f.Pos()).Filename)
+		_ = file
+		for _, decl := range f.Decls {
+			fd, ok := decl.(*ast.FuncDecl)
+			if !ok || fd.Body == nil {
+				continue
+			}
+			// value-typed struct variables in scope: receiver, parameters, and locals `x := <such a variable>`
+			vars := map[string]string{}
+			addFL := func(fl *ast.FieldList) {
+				if fl == nil {
+					return
+				}
+				for _, p := range fl.List {
+					if tn, isVal := typeName(p.Type); isVal {
+						if _, isStruct := structs[tn]; isStruct {
+							for _, n := range p.Names {
+								vars[n.Name] = tn
+							}
+						}
+					}
+				}
+			}
+			addFL(fd.Recv)
+			addFL(fd.Type.Params)
+			ast.Inspect(fd.Body, func(n ast.Node) bool {
+				if as, ok := n.(*ast.AssignStmt); ok && as.Tok == token.DEFINE && len(as.Lhs) == len(as.Rhs) {
+					for i, l := range as.Lhs {
+						if li, ok := l.(*ast.Ident); ok {
+							if ri, ok := as.Rhs[i].(*ast.Ident); ok {
+								if tn, has := vars[ri.Name]; has {
+									vars[li.Name] = tn
+								}
+							}
+						}
+					}
+				}
+				return true
+			})
+			assigned := map[string]map[string]bool{}
+			returned := map[string]bool{}
+			ast.Inspect(fd.Body, func(n ast.Node) bool {
+				switch x := n.(type) {
+				case *ast.AssignStmt:
+					for _, l := range x.Lhs {
+						if se, ok := l.(*ast.SelectorExpr); ok {
+							if id, ok := se.X.(*ast.Ident); ok {
+								if _, has := vars[id.Name]; has {
+									if assigned[id.Name] == nil {
+										assigned[id.Name] = map[string]bool{}
+									}
+									assigned[id.Name][se.Sel.Name] = true
+								}
+							}
+						}
+					}
+				case *ast.IncDecStmt:
+					if se, ok := x.X.(*ast.SelectorExpr); ok {
+						if id, ok := se.X.(*ast.Ident); ok {
+							if _, has := vars[id.Name]; has {
+								if assigned[id.Name] == nil {
+									assigned[id.Name] = map[string]bool{}
+								}
+								assigned[id.Name][se.Sel.Name] = true
+							}
+						}
+					}
+				case *ast.ReturnStmt:
+					for _, r := range x.Results {
+						if id, ok := r.(*ast.Ident); ok {
+							returned[id.Name] = true
+						}
+					}
+				}
+				return true
+			})
+			for v, fs := range assigned {
+				if !returned[v] {
+					continue
+				}
+				tn := vars[v]
+				var as, sh []string
+				for n := range fs {
+					as = append(as, n)
+				}
+				for _, rf := range structs[tn] {
+					if !fs[rf.name] {
+						sh = append(sh, rf.name+":"+rf.kind)
+					}
+				}
+				sort.Strings(as)
+				sort.Strings(sh)
+				ctors = append(ctors, ctor{tn, recvName(fd) + fd.Name.Name, strings.Join(as, ","), strings.Join(sh, ",")})
+			}
+		}
+	}
+	sort.Slice(ctors, func(i, j int) bool {
+		if ctors[i].typ != ctors[j].typ {
+			return ctors[i].typ < ctors[j].typ
+		}
+		if ctors[i].fn != ctors[j].fn {
+			return ctors[i].fn < ctors[j].fn
+		}
+		return ctors[i].assigned < ctors[j].assigned
+	})
+	var b strings.Builder
+	b.WriteString("def c03_copyCtors : List (String × String × String × String) := [\n")
+	var js [][]string
+	for i, c := range ctors {
+		sep := ","
+		if i == len(ctors)-1 {
+			sep = ""
+		}
+		fmt.Fprintf(&b, "  (%s, %s, %s, %s)%s\n", leanStr(c.typ), leanStr(c.fn), leanStr(c.assigned), leanStr(c.shared), sep)
+		js = append(js, []string{c.typ, c.fn, c.assigned, c.shared})
+	}
+	b.WriteString("]\n")
+	return b.String(), map[string]interface{}{"rows": js}
 }
